@@ -286,7 +286,7 @@ fn save_load_oracle(o: &mut Outcome, d: &Dictionary, it: &[(String, usize)]) {
 
 // incl. characters whose NFKC form contains a space (U+00A8, U+00B4) and a lone combining mark: cleaning and
 // normalising do not commute on them
-const WORDS: &[&str] = &["a", "ab", "b", "ba", "abc", "c", "A", "\u{e4}b", "a-b", "x.", "don't", "1a", "\u{4e2d}", "x\u{a8}y", "\u{301}b", "\u{b4}", "a\u{301}"];
+const WORDS: &[&str] = &["a", "ab", "b", "ba", "abc", "c", "A", "\u{e4}b", "a-b", "x.", "don't", "1a", "\u{4e2d}", "x\u{a8}y", "\u{301}b", "\u{b4}", "a\u{301}", "#", "#a", "a#b", "//", ";x"];
 
 fn rand_line(ctx: &mut Ctx) -> String {
     let n = ctx.rng.random_range(0..=6);
